@@ -309,6 +309,11 @@ int DetailedPlacement::siteEnd(int row, int pred) const {
   return next == -1 ? rows_[row].maxX : cellX(next);
 }
 
+bool DetailedPlacement::isRowCompatible(int c, int row) const {
+  return cellOrientationInRow(cellRowPolarity_[c], rows_[row].orientation) !=
+         CellOrientation::INVALID;
+}
+
 bool DetailedPlacement::canPlace(int c, int row, int pred, int x) const {
   if (isPlaced(c)) {
     throw std::runtime_error("Cannot attempt to place already placed cell");
@@ -329,6 +334,10 @@ bool DetailedPlacement::canInsert(int c, int row, int pred) const {
     // Do not insert before itself
     return false;
   }
+  if (!isRowCompatible(c, row)) {
+    // The polarity of the cell forbids this row
+    return false;
+  }
   return siteEnd(row, pred) - siteBegin(row, pred) >= cellWidth(c);
 }
 
@@ -338,6 +347,10 @@ bool DetailedPlacement::canSwap(int c1, int c2) const {
   }
   if (c1 == c2) {
     // Do not swap a cell with itself
+    return false;
+  }
+  if (!isRowCompatible(c1, cellRow(c2)) || !isRowCompatible(c2, cellRow(c1))) {
+    // The polarity of one of the cells forbids the row of the other
     return false;
   }
   if (cellPred(c1) == c2 || cellPred(c2) == c1) {
